@@ -447,7 +447,7 @@ SGInter = TMap(SGType, TSeq(IT))
 SPEC_SG = {
     'wf': "lambda inter, nodes: forall(lambda t, i, a: implies(t in inter and 0 <= i and i < len(inter[t]) and 0 <= a "
           "and a < len(inter[t][i].atoms), inter[t][i].atoms[a] in nodes), SGType, TInt, TInt)",
-    'allin': "lambda it: forall(lambda a: implies(0 <= a and a < len(it.atoms), it.atoms[a] in NODES))",
+    'allin': "lambda it: forall(lambda a: implies(0 <= a and a < len(it.atoms), it.atoms[a] in nodes))",
 }
 # the first Q interactions of the list W (of type T) have been dealt with: the part's list of that type holds exactly those whose
 # atoms are all in the part, in the same order (src: where an interaction of the part comes from; pos: where one of the whole went);
@@ -485,12 +485,12 @@ subgraph_interactions = FunctionContract(
     ensures=(
         # the part keeps, type by type and in order, exactly the interactions whose atoms all belong to it - so every atom of
         # every interaction of the part is an atom of the part (the class invariant of the new molecule)
-        _done_types('len(SELF)') + ["forall(lambda t: implies(t in SUB, t in SELF), SGType)", "wf(SUB, NODES)"]),
+        _done_types('len(SELF)') + ["forall(lambda t: implies(t in SUB, t in SELF), SGType)", "wf(SUB, nodes)"]),
     modifies=['SUB'],
     loops={
         'L1': LoopSpec(inv=_done_types('_i') + [
             "forall(lambda t: implies(t in SUB, t in SELF and posof(SELF, t) < _i), SGType)",
-            "wf(SUB, NODES)"],
+            "wf(SUB, nodes)"],
             modifies=['SUB', 'g_srcs', 'g_poss'],
             ghost_end="g_srcs[interaction_type] = g_s\ng_poss[interaction_type] = g_p"),
         'L1.1': LoopSpec(inv=[
@@ -701,6 +701,14 @@ def setup_sgh(cx):
     ADDED = cx.heap('ADDED', cx.box('ADDED', TSeq(SGNode)))
     EDGE_ARGS = cx.heap('EDGE_CALLS', cx.box('EDGE_CALLS', TSeq(TInt)))
     sub = Obj('NewMolecule')
+    # the vocabulary of the interactions region (contract above): the whole's interactions, and those of the new molecule (empty
+    # when it is created: assumed contract of Molecule.__init__)
+    inter = cx.val('interactions', SGInter)
+    cx.spec_env['SELF'] = inter
+    sub_inter = cx.box('sub_interactions', SGInter)
+    sub_inter.default = lambda e: Box(TSeq(IT))
+    cx.heap('SUB', sub_inter)
+    sub.attrs['interactions'] = sub_inter
     meta, ff, cit = Obj('meta'), Obj('force_field'), Obj('citations')
     edges = Obj('edges_between(nodes, nodes, data=True)')
 
@@ -736,15 +744,30 @@ def setup_sgh(cx):
     self = Obj('Molecule', name=cx.val('NAME', TStr), meta=meta, _force_field=ff, nrexcl=cx.val('NREXCL', TOpt(TInt)), citations=cit,
                nodes=Obj('NodeView', __getitem__=Builtin(lambda e, n: SV(SGAttrs, attrs_of(to_z3(n, Key))), 'self.nodes[]')),
                edges_between=Builtin(edges_between, 'self.edges_between'))
-    self.attrs['__class__'] = Builtin(lambda e: sub, 'self.__class__')
+    def construct(e):
+        sub_inter.e = SGInter.empty()
+        return sub
+    self.attrs['__class__'] = Builtin(construct, 'self.__class__')
+    self.attrs['interactions'] = inter
     cx.spec_env['copy'] = Obj('copy', copy=Builtin(copy_, 'copy.copy'))
-    cx.spec_env.update(SELF_META=meta, SELF_FF=ff, SELF_CIT=cit, SUBM=sub)
+    cx.spec_env.update(SELF_META=meta, SELF_FF=ff, SELF_CIT=cit, SUBM=sub, Key=Key)
     return dict(self=self, nodes=nodes)
+
+
+def _new_molecule(env):
+    # the new molecule as the head block leaves it (used where the block stands for its statements: its attributes have to exist for
+    # the block's postcondition, which is assumed there, to be evaluated; values that disagreed with it would end the path, which the
+    # vacuity check of the composed contract reports)
+    o, me = env.lookup('SUBM'), env.lookup('self')
+    o.attrs.update(name=me.attrs['name'], meta=Obj('copy', of=me.attrs['meta']), _force_field=me.attrs['_force_field'],
+                   nrexcl=me.attrs['nrexcl'], citations=me.attrs['citations'])
+    return o
 
 
 subgraph_head = FunctionContract(
     F, 'Molecule.subgraph', 'C12', short='Molecule.subgraph[atoms and bonds]', setup=setup_sgh,
     region=dict(start="subgraph = self.__class__()", end="for interaction_type, interactions in self.interactions.items():"),
+    locals=dict(nodes=TSet(Key), subgraph=lambda env: _new_molecule(env)),
     requires=["len(old(ADDED)) == 0 and len(old(EDGE_CALLS)) == 0"],
     ensures=[
         # the part is a new molecule of the same class with the whole's name, force field, nrexcl and citations and a copy of its meta
@@ -755,10 +778,38 @@ subgraph_head = FunctionContract(
         "forall(lambda j: implies(0 <= j and j < len(NODE_LIST), ADDED[j] == (NODE_LIST[j], copy_of(attrs_of(NODE_LIST[j])))))",
         # ... and the bonds the whole has among these atoms (edges_between: contract Molecule.edges_between[pairs]), added once
         "len(EDGE_CALLS) == 1",
+        # from here on `nodes` is the set of the atoms asked for, and the new molecule has no interactions yet
+        "forall(lambda x: (x in nodes) == exists(lambda i: 0 <= i and i < len(NODE_LIST) and NODE_LIST[i] == x), Key)",
+        "len(SUB) == 0",
     ],
-    modifies=['ADDED', 'EDGE_CALLS'],
+    modifies=['ADDED', 'EDGE_CALLS', 'SUB'],
     canary=[("node_copies = [(node, copy.copy(self.nodes[node])) for node in nodes]", "node_copies = [(node, self.nodes[node]) for node in nodes]"),
             ("subgraph._force_field = self._force_field", "subgraph._force_field = None"),
             ("subgraph.add_edges_from(self.edges_between(nodes, nodes, data=True))", "subgraph.add_edges_from(self.edges_between(nodes, nodes))")],
 )
 CONTRACTS.append(subgraph_head)
+
+
+
+# ------------------------------------------------------------------ Molecule.subgraph as a whole: the two regions composed
+B_SG_HEAD = BlockSpec.of(subgraph_head)
+B_SG_INTER = BlockSpec.of(subgraph_interactions)
+subgraph_whole = FunctionContract(
+    F, 'Molecule.subgraph', 'C12', short='Molecule.subgraph[whole]', setup=setup_sgh, spec_defs=SPEC_SG, spec_env=dict(SGType=SGType),
+    blocks=[B_SG_HEAD, B_SG_INTER],
+    requires=["len(old(ADDED)) == 0 and len(old(EDGE_CALLS)) == 0"],
+    ensures=[
+        # the result is the new molecule: the atoms asked for (copies of their attributes), the whole's bonds among them ...
+        "result is SUBM",
+        "len(ADDED) == len(NODE_LIST)",
+        "forall(lambda j: implies(0 <= j and j < len(NODE_LIST), ADDED[j] == (NODE_LIST[j], copy_of(attrs_of(NODE_LIST[j])))))",
+        "len(EDGE_CALLS) == 1",
+        # ... and, type by type and in order, exactly the interactions of the whole whose atoms all are among the atoms asked for: so every
+        # atom of every interaction of the part is an atom of the part
+        "forall(lambda t, i, a: implies(t in SUB and 0 <= i and i < len(SUB[t]) and 0 <= a and a < len(SUB[t][i].atoms), "
+        "   exists(lambda q: 0 <= q and q < len(NODE_LIST) and NODE_LIST[q] == SUB[t][i].atoms[a])), SGType, TInt, TInt)",
+        "forall(lambda t: implies(t in SUB, t in SELF), SGType)",
+    ] + _done_types('len(SELF)'),
+    modifies=['ADDED', 'EDGE_CALLS', 'SUB'],
+)
+CONTRACTS.append(subgraph_whole)
